@@ -138,6 +138,7 @@ Fixpoint check_cut (maxttl now : Z) (st : list centry) (ops : list cutop) : bool
       | None => negb ok && check_cut maxttl now st t
       end
   | OpAdvance s :: t => check_cut maxttl (now + s)%Z st t
+  | OpPurge q qclass :: t => check_cut maxttl now (cut_purge st (canon q) qclass) t
   | OpLookup q qclass cd found fw :: t =>
       let r := cut_lookup now st (canon q) qclass cd in
       opt_name_eqb r found &&
@@ -170,6 +171,7 @@ Fixpoint spec_cut (maxttl now : Z) (log : list (rname * N * Z)) (ops : list cuto
                     | None => log end
          else log) t
   | OpAdvance s :: t => spec_cut maxttl (now + s)%Z log t
+  | OpPurge _ _ :: t => spec_cut maxttl now log t   (* a purge only removes: the soundness side has nothing to ask *)
   | OpLookup q qclass cd found fw :: t =>
       let ok1 (f : option name) (cdv : bool) :=
         match f with
